@@ -606,50 +606,47 @@ class IQInitMpSimpleStop(IQInit):
 
 
 class IQState(Unit):
-    """__getstate__ / __setstate__: the tuple written and the tuple read list the same attributes in the same order (all eight of them), so an IterableQueue
-    passed to another process refers to the same data queue, token queues, lock and counters."""
+    """__getstate__ / __setstate__ round trip, executed symbolically on the real text of both: the object rebuilt in another process from what
+    __getstate__ returns refers to the SAME eight things -- data queue, stop event, supplier count, the three token queues, the timeout flag and the lock
+    that makes "move my token and test whether the set is complete" one atomic step ACROSS processes.  (A lock made anew on unpickling would be private
+    to each process: two consumer processes could both add the extra end marker, and one would survive renew().)"""
     prop = 'C17'
     file = F
     qual = 'IterableQueue.__getstate__'
-    canaries = (('two token queues swapped in the pickled state', '            self._applied_lids,\n            self._used_lids,\n            self._can_timeout,', '            self._used_lids,\n            self._applied_lids,\n            self._can_timeout,', ''),)
-    FIELDS = {'_q', '_to_stop', '_num_suppliers', '_spare_lids', '_applied_lids', '_used_lids', '_can_timeout', '_lids_lock'}
+    canaries = (('two token queues swapped in the pickled state', '            self._applied_lids,\n            self._used_lids,\n            self._can_timeout,', '            self._used_lids,\n            self._applied_lids,\n            self._can_timeout,', ''),
+                ('the lock is not part of the pickled state', '            self._can_timeout,\n            self._lids_lock,\n        )', '            self._can_timeout,\n            self._can_timeout,\n        )', ''))
+    FIELDS = ('_q', '_to_stop', '_num_suppliers', '_spare_lids', '_applied_lids', '_used_lids', '_can_timeout', '_lids_lock')
 
-    def run(self, override=None):
-        import hashlib
-        from pyvc.unit import load_source, find_function
-        from pyvc.core import Obligation
-        res = {'unit': self.name, 'status': 'ok', 'obligations': [], 'covers': {}, 'ignored': [], 'sha': None, 'error': None, 'paths': 1, 'lineno': None}
-        self.ex = None
-        try:
-            src = load_source(self.file, override)
-            tree = ast.parse(src)
-            g, s_ = find_function(tree, 'IterableQueue.__getstate__'), find_function(tree, 'IterableQueue.__setstate__')
-            res['lineno'] = g.lineno
-            res['sha'] = hashlib.sha256((ast.get_source_segment(src, g) + ast.get_source_segment(src, s_)).encode()).hexdigest()
-            ret = [x for x in ast.walk(g) if isinstance(x, ast.Return)]
-            asg = [x for x in ast.walk(s_) if isinstance(x, ast.Assign)]
-            out = [ast.unparse(e) for e in ret[0].value.elts] if len(ret) == 1 and isinstance(ret[0].value, ast.Tuple) else None
-            inn = [ast.unparse(e) for e in asg[0].targets[0].elts] if len(asg) == 1 and isinstance(asg[0].targets[0], ast.Tuple) and ast.unparse(asg[0].value) == s_.args.args[1].arg else None
-        except (KeyError, SyntaxError, FileNotFoundError, IndexError, AttributeError) as e:
-            res['status'], res['error'] = 'undecided', f'cannot read the two functions: {e!r}'
-            return res
-        if out is None or inn is None:
-            res['status'], res['error'] = 'undecided', 'the state is not written / read as one tuple of attributes'
-            return res
-        ob = Obligation(f'{self.qual}: the pickled state lists all eight attributes, and __setstate__ reads them back in the same order (written {out}, read {inn})', [],
-                        z3.BoolVal(out == inn and {x.replace('self.', '') for x in out} == self.FIELDS and len(out) == 8), [g.lineno], 'assert')
-        ob.unit = self.name
-        res['obligations'].append(ob)
-        return res
+    def setup(self, ex):
+        st = St()
+        self.vals = {f: z3.Const('field' + f, Val) for f in self.FIELDS}
+        self.me = Rec(ex, 'self', immutable=True).init(st, **self.vals)
+        st.env['self'] = self.me
+        # anything constructed while unpickling is a NEW object, private to the unpickling process
+        for nm in ('multiprocessing.Lock', 'multiprocessing.RLock', 'threading.Lock', 'threading.RLock', 'multiprocessing.Queue', 'multiprocessing.SimpleQueue', 'queue.Queue', 'queue.SimpleQueue',
+                   'multiprocessing.Event', 'threading.Event'):
+            ex.globals[nm] = Fn(lambda e, s, a, k, n, nm=nm: [('ok', s, fresh('new_' + nm.replace('.', '_')))])
+        ex.globals['multiprocessing'] = Module('multiprocessing')
+        ex.globals['threading'] = Module('threading')
+        ex.globals['queue'] = Module('queue')
+        return st
 
-    def load(self, override=None):
-        import hashlib
+    def post(self, ex, outs):
         from pyvc.unit import load_source, find_function
-        src = load_source(self.file, override)
-        tree = ast.parse(src)
-        g, s_ = find_function(tree, 'IterableQueue.__getstate__'), find_function(tree, 'IterableQueue.__setstate__')
-        seg = ast.get_source_segment(src, g)
-        return g, hashlib.sha256(seg.encode()).hexdigest(), seg
+        from pyvc.core import Closure
+        fn2 = find_function(ast.parse(load_source(self.file, self._override)), 'IterableQueue.__setstate__')
+        for k, s, p in outs:
+            if k not in ('normal', 'return'):
+                ex.oblige(s, 'exit: __getstate__ does not raise', False)
+                continue
+            new = Rec(ex, 'the unpickled object')
+            for k2, s2, p2 in ex.inline(s, Closure(fn2, ex), [new, p], {}, fn2):
+                if k2 not in ('ok', 'normal', 'return'):
+                    ex.oblige(s2, 'round trip: __setstate__ accepts what __getstate__ wrote', False)
+                    continue
+                for f in self.FIELDS:
+                    ex.oblige(s2, f'round trip: the rebuilt object\'s {f} is the very one of the original (shared across processes, not a new one)',
+                              box(ex, new.get(s2, f)) == self.vals[f] if new.has(s2, f) else z3.BoolVal(False))
 
 
 class IQPut(Unit):
